@@ -3,8 +3,9 @@
 import json, sys
 pid = sys.argv[1]
 hint = sys.argv[2] if len(sys.argv) > 2 else ''
+suffix = sys.argv[3] if len(sys.argv) > 3 else ''
 p = [json.loads(l) for l in open('/verif/properties.jsonl') if json.loads(l)['id'] == pid][0]
-wt = '/tmp/seed_%s' % pid.lower()
+wt = '/tmp/seed_%s%s' % (pid.lower(), suffix)
 out = wt + '_out'
 print(f"""You are helping to evaluate a test-generation tool. You work ONLY inside the git worktree {wt} (a checkout of the
 open-source project tomhea/flip-jump: a Python macro assembler, .fjm binary format reader/writer, interpreter with an
